@@ -594,8 +594,12 @@ def add_history(rng, case, prob=0.2):
             # exactly ONE parameter differed before (a cache invalidated by some assignments but not by others)
             import copy
             p = copy.deepcopy(d)
-            keys = [k for k in p if k not in ('kind', 'include', 'origin', 'n', 'v', 'text')]
+            keys = [k for k in p if k not in ('kind', 'include', 'origin', 'v', 'text', 'size_np', 'v_np', 'meta_extra', 'c_f32', 'c_int')]
             k = rng.choice(keys) if keys else None
+            if k == 'n':
+                # the vertex count of a regular polygon is the only thing that changes
+                p[k] = rng.choice([v for v in range(3, 10) if v != p[k]])
+                k = None
             if k == 'angle':
                 p[k] = [p[k][0] + {'deg': 90.0, 'rad': 1.5, 'arcmin': 5400.0, 'hourangle': 6.0}.get(p[k][1], 1.0) * rng.choice([1, -1, 0.37]), p[k][1]]
             elif k == 'c':
